@@ -16,6 +16,8 @@ import (
 	"context"
 	"encoding/json"
 	"fmt"
+	"io/ioutil"
+	"log"
 	"math"
 	"math/big"
 	"net/http/httptest"
@@ -23,9 +25,11 @@ import (
 	"reflect"
 	"sort"
 	"strings"
+	"sync"
 	"sync/atomic"
 	"time"
 
+	"github.com/gorilla/websocket"
 	"github.com/samsarahq/thunder/graphql"
 	"github.com/samsarahq/thunder/graphql/schemabuilder"
 	"verifharness/pkg/vh"
@@ -180,9 +184,12 @@ func hasNull(l *Lit) bool {
 	return false
 }
 
-func (s *Send) query() string {
+func (s *Send) query() string { return s.document("query", "Query") }
+
+// document renders the request as a query or as a mutation (websocket "mutate" messages).
+func (s *Send) document(op, root string) string {
 	var b strings.Builder
-	b.WriteString("query Q")
+	b.WriteString(op + " Q")
 	if len(s.Defs) > 0 {
 		xs := []string{}
 		for _, d := range s.Defs {
@@ -207,9 +214,9 @@ func (s *Send) query() string {
 	}
 	switch s.Place {
 	case "fragment":
-		b.WriteString(" { g(x: 1) ...Fr }\nfragment Fr on Query { " + field + " }")
+		b.WriteString(" { g(x: 1) ...Fr }\nfragment Fr on " + root + " { " + field + " }")
 	case "inline":
-		b.WriteString(" { g(x: 1) ... on Query { " + field + " } }")
+		b.WriteString(" { g(x: 1) ... on " + root + " { " + field + " } }")
 	default:
 		b.WriteString(" { g(x: 1) " + field + " }")
 	}
@@ -445,6 +452,13 @@ type Obs struct {
 	HTTPCallsF int32  `json:"http_calls_f"`
 	HTTPCallsG int32  `json:"http_calls_g"`
 	HTTPStatus string `json:"http_status,omitempty"` // ok | error | panic | timeout
+	// the same request over a JSON socket (graphql/server.go handleSubscribe or handleMutate)
+	WSKind   string `json:"ws_kind,omitempty"`   // subscribe | mutate
+	WSStatus string `json:"ws_status,omitempty"` // ok | error | panic | timeout
+	WSErr    string `json:"ws_err,omitempty"`
+	WSDump   *Val   `json:"ws_dump,omitempty"`
+	WSCallsF int32  `json:"ws_calls_f"`
+	WSCallsG int32  `json:"ws_calls_g"`
 }
 
 type built struct {
@@ -479,7 +493,12 @@ func build(td *TyDesc) (b *built, err error) {
 		atomic.AddInt32(b.callsG, 1)
 		return args.X
 	})
-	sb.Mutation()
+	mu := sb.Mutation()
+	mu.FieldFunc("f", fn.Interface())
+	mu.FieldFunc("g", func(args struct{ X int32 }) int32 {
+		atomic.AddInt32(b.callsG, 1)
+		return args.X
+	})
 	s, err := sb.Build()
 	if err != nil {
 		return nil, err
@@ -589,6 +608,107 @@ func (b *built) viaHTTP(s *Send, o *Obs) {
 	o.HTTPCallsF, o.HTTPCallsG = atomic.LoadInt32(b.callsF), atomic.LoadInt32(b.callsG)
 }
 
+// fakeSocket is an in-process graphql.JSONSocket.
+type fakeSocket struct {
+	in     chan []byte
+	out    chan []byte
+	closed chan struct{}
+	once   sync.Once
+}
+
+func newFakeSocket() *fakeSocket {
+	return &fakeSocket{in: make(chan []byte, 4), out: make(chan []byte, 16), closed: make(chan struct{})}
+}
+func (s *fakeSocket) ReadJSON(v interface{}) error {
+	select {
+	case b := <-s.in:
+		return json.Unmarshal(b, v)
+	case <-s.closed:
+		return &websocket.CloseError{Code: websocket.CloseNormalClosure}
+	}
+}
+func (s *fakeSocket) WriteJSON(v interface{}) error {
+	b, err := json.Marshal(v)
+	if err != nil {
+		return err
+	}
+	select {
+	case s.out <- b:
+	case <-s.closed:
+	}
+	return nil
+}
+func (s *fakeSocket) Close() error {
+	s.once.Do(func() { close(s.closed) })
+	return nil
+}
+
+// viaWS sends the request over a JSON socket as a subscription (query) or as a mutation and waits for the
+// first answer carrying its id.
+func (b *built) viaWS(s *Send, mutate bool, o *Obs) {
+	*b.callsF, *b.callsG = 0, 0
+	*b.got = reflect.Value{}
+	o.WSKind = "subscribe"
+	doc := s.query()
+	if mutate {
+		o.WSKind = "mutate"
+		doc = s.document("mutation", "Mutation")
+	}
+	ctx, cancel := context.WithCancel(context.Background())
+	sock := newFakeSocket()
+	conn := graphql.CreateConnection(ctx, sock, b.schema, graphql.WithMinRerunInterval(time.Hour))
+	served := make(chan string, 1)
+	go func() {
+		defer func() {
+			if e := recover(); e != nil {
+				served <- fmt.Sprint(e)
+				return
+			}
+			served <- ""
+		}()
+		conn.ServeJSONSocket()
+	}()
+	msg, _ := json.Marshal(map[string]interface{}{"query": doc, "variables": s.Vars})
+	env, _ := json.Marshal(map[string]interface{}{"id": "1", "type": o.WSKind, "message": json.RawMessage(msg)})
+	sock.in <- env
+	deadline := time.After(10 * time.Second)
+wait:
+	for {
+		select {
+		case raw := <-sock.out:
+			var out struct {
+				ID      string      `json:"id"`
+				Type    string      `json:"type"`
+				Message interface{} `json:"message"`
+			}
+			if json.Unmarshal(raw, &out) != nil || out.ID != "1" {
+				continue
+			}
+			switch out.Type {
+			case "error":
+				o.WSStatus, o.WSErr = "error", fmt.Sprint(out.Message)
+			case "update", "result":
+				o.WSStatus = "ok"
+				if b.got.IsValid() {
+					o.WSDump = dump(*b.got, b.mty)
+				}
+			default:
+				continue
+			}
+			break wait
+		case p := <-served:
+			o.WSStatus, o.WSErr = "panic", "connection ended: "+p
+			break wait
+		case <-deadline:
+			o.WSStatus = "timeout"
+			break wait
+		}
+	}
+	o.WSCallsF, o.WSCallsG = atomic.LoadInt32(b.callsF), atomic.LoadInt32(b.callsG)
+	cancel()
+	sock.Close()
+}
+
 func js(v interface{}) string {
 	b, _ := json.Marshal(v)
 	return string(b)
@@ -671,6 +791,7 @@ func genCase(r *vh.Rng) Case {
 
 func main() {
 	o := vh.ParseFlags()
+	log.SetOutput(ioutil.Discard) // server.go logs every refused request
 	run := vh.NewRun("C18", o)
 	run.Rule = "cases = (argument struct type, value or mutated wire form) sent through 1-5 transports (literal, variable, nested-variable, default, default-overridden); 70% in-range values, 30% malformed (17 mutation classes); distinct by JSON text of the case; non-trivial = valid case whose value differs from the zero value of its type, or malformed case (the mutation was applied)"
 	r := vh.NewRng(o.Seed)
@@ -735,6 +856,7 @@ func main() {
 			s := &c.Sends[k]
 			ob := b.exec(s)
 			b.viaHTTP(s, &ob)
+			b.viaWS(s, (idx+k)%3 == 0, &ob)
 			obs = append(obs, ob)
 			run.Hist("transport:" + s.Transport)
 			run.Hist("outcome:" + ob.Stage)
@@ -770,6 +892,19 @@ func main() {
 				run.Fail(idx, "resolver-ran-before-rejection", fmt.Sprintf("http: calls f=%d g=%d %s", ob.HTTPCallsF, ob.HTTPCallsG, tag), c)
 			case ob.HTTPStatus == "ok" && !valEq(ob.HTTPDump, ob.Dump):
 				run.Fail(idx, "http-path-disagrees", "http="+js(ob.HTTPDump)+" direct="+js(ob.Dump)+" "+tag, c)
+			}
+			// ... and so must the websocket handlers (server.go handleSubscribe / handleMutate)
+			switch {
+			case ob.WSStatus == "panic" || ob.WSStatus == "timeout":
+				run.Fail(idx, "ws-"+ob.WSKind+"-"+ob.WSStatus, ob.WSErr+" "+tag, c)
+			case (ob.WSStatus == "ok") != (ob.Stage == "ok"):
+				run.Fail(idx, "ws-path-disagrees", fmt.Sprintf("direct=%s %s=%s %s %s", ob.Stage, ob.WSKind, ob.WSStatus, ob.WSErr, tag), c)
+			case ob.WSStatus == "error" && ob.WSCallsF+ob.WSCallsG != 0:
+				run.Fail(idx, "resolver-ran-before-rejection", fmt.Sprintf("ws %s: calls f=%d g=%d %s", ob.WSKind, ob.WSCallsF, ob.WSCallsG, tag), c)
+			case ob.WSStatus == "ok" && !valEq(ob.WSDump, ob.Dump):
+				run.Fail(idx, "ws-path-disagrees", ob.WSKind+"="+js(ob.WSDump)+" direct="+js(ob.Dump)+" "+tag, c)
+			case ob.WSStatus == "ok" && (ob.WSCallsF != 1 || ob.WSCallsG != 1):
+				run.Fail(idx, "resolver-call-count", fmt.Sprintf("ws %s: calls f=%d g=%d %s", ob.WSKind, ob.WSCallsF, ob.WSCallsG, tag), c)
 			}
 			switch c.Expect {
 			case "echo":
@@ -812,7 +947,8 @@ func main() {
 			case "args":
 				ot = "OErrArgs"
 			}
-			sendTerms = append(sendTerms, fmt.Sprintf("(mk_send %s %s %s %s %s)", vh.CoqList(defs), coqVars(vars), coqFields(s.Args), ot, vh.CoqZ(int64(ob.CallsF))))
+			place := map[string]string{"": "InBody", "fragment": "InFragment", "inline": "InInline"}[s.Place]
+			sendTerms = append(sendTerms, fmt.Sprintf("(mk_send %s %s %s %s %s %s)", vh.CoqList(defs), coqVars(vars), coqFields(s.Args), place, ot, vh.CoqZ(int64(ob.CallsF))))
 		}
 		// transports agree
 		if !c.NoEquiv {
